@@ -395,6 +395,8 @@ ben('close-extract-helpers', 'File.cpp', [["void File::close() {\n    /* check i
                                             "void File::stopReadSession() {\n    /* finalize compressedFileThread */\n    m_compressedFileThreadRunning = false;\n    m_compressedFile.close();\n\n    /* finalize uncompressedFileThread */\n    m_uncompressedFileThreadRunning = false;\n    m_uncompressedFile.abort();\n\n    /* abort readWriteQueue */\n    m_readWriteQueue.abort();\n\n    /* finalize compressedFileThread */\n    if (m_compressedFileThread.joinable())\n        m_compressedFileThread.join();\n\n    /* finalize uncompressedFileThread */\n    if (m_uncompressedFileThread.joinable())\n        m_uncompressedFileThread.join();\n}\n\nvoid File::close() {\n    /* check if file is open */\n    if (!is_open())\n        return;\n\n    /* read */\n    if (m_openMode & std::ios_base::in) {\n        stopReadSession();\n    }\n"]],
     ['C06', 'C13', 'C05', 'C11', 'C07', 'C04'], 'extract-method: the read-mode shutdown moved into a private helper')
 G[-1]['extra_edits'] = [('File.h', [["    std::ios_base::openmode m_openMode {};", "    std::ios_base::openmode m_openMode {};\n\n    /** stop the two read threads (part of close()) */\n    void stopReadSession();"]])]
+ben('queue-eof-atom-negated', 'ObjectQueue.cpp', [["        (m_tellg >= m_fileSize);\n    });\n\n    /* get first entry */", "        !(m_tellg < m_fileSize);\n    });\n\n    /* get first entry */"]],
+    ['C16', 'C06', 'C07', 'C08'], 'the end-of-stream atom of the reader written as a negated comparison')
 ben('factory-without-parens', 'File.cpp', [["        obj = new CanErrorFrame();", "        obj = new CanErrorFrame;"]], ['C17', 'C01'])
 ben('compression-branch-inverted', 'File.cpp', [["    if (compressionLevel == 0) {\n        /* no compression */\n        logContainer.compress(0, 0);\n    } else {\n        /* zlib compression */\n        logContainer.compress(2, compressionLevel);\n    }", "    if (compressionLevel != 0) {\n        /* zlib compression */\n        logContainer.compress(2, compressionLevel);\n    } else {\n        /* no compression */\n        logContainer.compress(0, 0);\n    }"]], PIPE)
 
